@@ -8,6 +8,8 @@ def replay(args, outdir):
     import singlecellmultiomics.bamProcessing.bamBinCounts as B
     a, lemma = args['cex'], args['lemma']
     merge = astcut.cut_for(B, 'obtain_counts', 'result.items()', params=('counts', 'result'), result='counts')
+    if lemma == 'L5_two_reads_megabase_scale':
+        return _two_reads(a, merge)
     if lemma == 'L4_two_files_same_contig_name':
         return _two_files(a, merge)
     if lemma == 'L3_merge_order':
@@ -96,5 +98,44 @@ def _two_files(a, merge):
             return dict(reproduced=False)
         return dict(reproduced=True, signature='L4_two_files_same_contig_name:second_file_wrong',
                     what='counting a.bam (chr1 length %d) then b.bam (chr1 length %d) in one process: b.bam -> %r expected %r' % (LA, LB, totals['b'], exp_b))
+    finally:
+        shutil.rmtree(d, ignore_errors=True)
+
+
+def _two_reads(a, merge):
+    import pysam
+    import singlecellmultiomics.bamProcessing.bamBinCounts as B
+    L = 2_600_000
+    b = [250_000, 300_000, 700_000, 1_000_000][a['bi']]
+    POS = [0, 299_999, 300_000, 999_999, 1_000_000, 1_000_001, 1_199_999, 1_200_000, 2_099_999, 2_599_999]
+    sites = sorted((POS[a['p1']], POS[a['p2']]))
+    d = tempfile.mkdtemp(prefix='c12t', dir=os.environ.get('VERIF_SCRATCH') or None)
+    try:
+        path = os.path.join(d, 'x.bam')
+        cells = []
+        with pysam.AlignmentFile(path, 'wb', header={'HD': {'VN': '1.6', 'SO': 'coordinate'}, 'SQ': [{'SN': 'chr1', 'LN': L}]}) as o:
+            for i, s_ in enumerate(sites):
+                r = pysam.AlignedSegment(o.header)
+                r.query_name, r.reference_id, r.reference_start = 'q%d' % i, 0, s_
+                r.query_sequence, r.query_qualities, r.cigarstring = 'A', [30], '1M'
+                r.is_paired, r.is_read1, r.mapping_quality = True, True, 60
+                cell = 'cellA' if (a['same_cell'] or i == 0) else 'cellB'
+                cells.append(cell)
+                r.set_tag('SM', cell)
+                o.write(r)
+        pysam.index(path)
+        total = {}
+        for cmd in B.generate_commands(path, bin_size=b, bins_per_job=a['k'], max_fragment_size=1000, min_mq=50, key_tags=None, dedup=True, kwargs={}):
+            total = merge(total, B.count_fragments_binned(cmd))
+        exp = {}
+        for s_, cell in zip(sites, cells):
+            i = s_ // b
+            key = ('chr1', b * i, min(b * (i + 1), L))
+            exp.setdefault(key, {})
+            exp[key][cell] = exp[key].get(cell, 0) + 1
+        if total == exp:
+            return dict(reproduced=False)
+        return dict(reproduced=True, signature='L5_two_reads_megabase_scale:table_differs',
+                    what='bin %d bins_per_job %d sites %r cells %r -> %r expected %r' % (b, a['k'], sites, cells, total, exp))
     finally:
         shutil.rmtree(d, ignore_errors=True)
